@@ -9,9 +9,10 @@ from harness.drivers import c05
 chk = Check("C05X")
 cfg = {"op": "gperm", "m": 3, "n": 4, "rows": [0, 2], "cols": [3, 1], "vals": [5, 2], "fam": "distinct"}
 def opt(**kw):
-    o = {"method": "truncated_svd", "over": 5, "niter": 2, "mask": "off", "pow2": 0, "form": "name", "k": 2, "flip": "off", "nonneg": "off", "via": "interface"}; o.update(kw); return o
+    o = {"method": "truncated_svd", "over": 5, "niter": 2, "mask": "off", "pow2": 0, "form": "name", "cform": "mixed", "entry": "svd", "path": "interface", "retry": False, "k": 2, "flip": "off", "nonneg": "off", "via": "interface"}; o.update(kw); return o
 opts = [opt(), opt(flip="U", k=5), opt(method="randomized_svd", over=0, k=1), opt(nonneg="nndsvd", flip="U", k=2), opt(method="symeig_svd", k=1, flip="V"),
-        opt(method="randomized_svd", over=5, niter=0, k=2), opt(mask="ones", k=1), opt(pow2=650, k=1), opt(form="kwonly", k=1), opt(method="randomized_svd", form="partial", over=10, k=2),
+        opt(method="randomized_svd", over=5, niter=0, k=2), opt(mask="ones", k=1), opt(pow2=650, k=1), opt(form="kwonly", k=1), opt(cform="pos", flip="V", k=2, path="helpers"), opt(cform="kw", entry="tl", retry=True, k=1),
+        opt(nonneg="nndsvda", nnspell="name", cform="pos", k=2, path="helpers"), opt(method="randomized_svd", form="partial", over=10, k=2),
         opt(method="callable", form="object", k=1), opt(method="randomized_svd", pow2=-530, k=2)]
 ev = c05.execute({"id": "good", "cfg": cfg, "full": False, "opts": opts, "seed": 3})
 evs = [ev]
